@@ -30,9 +30,14 @@ import (
 const goBin = "go1.26.8"
 
 var (
-	verifDir   = envOr("VERIF_DIR", "/verif")
-	repoDir    = envOr("VERIF_REPO", "/repo")
-	harnessDir string
+	verifDir = envOr("VERIF_DIR", "/verif")
+	repoDir  = envOr("VERIF_REPO", "/repo")
+	// a seeded change is tried on a scratch worktree (VERIF_REPO) while other runs use /repo: such a
+	// run keeps its scratch files, evidence and replays out of the registered locations
+	workRoot    = envOr("VERIF_WORKROOT", "")
+	evidenceDir = envOr("VERIF_EVIDENCE_DIR", "")
+	replaysDir  = envOr("VERIF_REPLAYS_DIR", "")
+	harnessDir  string
 )
 
 func envOr(k, d string) string {
@@ -127,6 +132,15 @@ func main() {
 	}
 	_ = flag.CommandLine.Parse(rest)
 	harnessDir = filepath.Join(verifDir, "harness")
+	if workRoot == "" {
+		workRoot = filepath.Join(verifDir, ".work")
+	}
+	if evidenceDir == "" {
+		evidenceDir = filepath.Join(verifDir, "evidence")
+	}
+	if replaysDir == "" {
+		replaysDir = filepath.Join(verifDir, "replays")
+	}
 	if *list {
 		var ids []string
 		for k := range registry {
@@ -160,7 +174,7 @@ func main() {
 
 func run(id string, chk *Check, tier string, seed int64, replay string, keep bool) int {
 	start := time.Now()
-	work := filepath.Join(verifDir, ".work", id)
+	work := filepath.Join(workRoot, id)
 	_ = os.RemoveAll(work)
 	must(os.MkdirAll(work, 0o755))
 	if !keep {
@@ -180,6 +194,17 @@ func run(id string, chk *Check, tier string, seed int64, replay string, keep boo
 	var outsMu sync.Mutex
 
 	// ---- build
+	altMod := ""
+	if repoDir != "/repo" {
+		// the harness module replaces vivid by /repo: a run against another tree gets its own go.mod
+		gm, err := os.ReadFile(filepath.Join(harnessDir, "go.mod"))
+		must(err)
+		altMod = filepath.Join(work, "go.alt.mod")
+		must(os.WriteFile(altMod, []byte(strings.Replace(string(gm), "=> /repo", "=> "+repoDir, 1)), 0o644))
+		if gs, err := os.ReadFile(filepath.Join(harnessDir, "go.sum")); err == nil {
+			must(os.WriteFile(filepath.Join(work, "go.alt.sum"), gs, 0o644))
+		}
+	}
 	type built struct {
 		u   *Unit
 		bin string
@@ -200,6 +225,9 @@ func run(id string, chk *Check, tier string, seed int64, replay string, keep boo
 			return finish(id, chk, tier, seed, start, nil, nil, []string{"overlay generation failed: " + err.Error()}, known)
 		}
 		args := []string{"test", "-c", "-vet=off", "-o", bin}
+		if altMod != "" {
+			args = append(args, "-modfile="+altMod)
+		}
 		if u.Race {
 			args = append(args, "-race")
 		}
@@ -408,7 +436,7 @@ func runUnit(id string, u *Unit, bin, work, tier string, seed int64, shard int, 
 var failLine = regexp.MustCompile(`VERIF-FAIL sig=(\S+) :: ([^\n]*)`)
 
 func saveReplay(id, unit, test, src string, data []byte, ext string) string {
-	dir := filepath.Join(verifDir, "replays", id)
+	dir := filepath.Join(replaysDir, id)
 	_ = os.MkdirAll(dir, 0o755)
 	if data == nil {
 		b, err := os.ReadFile(src)
@@ -762,9 +790,9 @@ func finish(id string, chk *Check, tier string, seed int64, start time.Time, out
 		"wall_s":      time.Since(start).Seconds(),
 		"violations":  len(viols),
 	}
-	_ = os.MkdirAll(filepath.Join(verifDir, "evidence"), 0o755)
+	_ = os.MkdirAll(evidenceDir, 0o755)
 	b, _ := json.MarshalIndent(ev, "", " ")
-	must(os.WriteFile(filepath.Join(verifDir, "evidence", id+".json"), b, 0o644))
+	must(os.WriteFile(filepath.Join(evidenceDir, id+".json"), b, 0o644))
 
 	// ---- report
 	for _, f := range known {
